@@ -306,6 +306,8 @@ def gen_workload(rng, tier):
         w["output_faults"] = [{"kind": "close_fail", "errno": rng.choice(c08.ERRS)}]
     elif r < 0.45:
         w["output_faults"] = [{"kind": "raw_short_write", "k": rng.randint(0, 2), "n": rng.choice([1, 5, 50])}]
+    elif r < 0.55:
+        w["output_faults"] = [{"kind": "disk_full", "capacity": rng.choice([0, 7, 80, 500, 3000, 9000])}]
     return w
 
 
@@ -361,6 +363,6 @@ def shrink(trace, still_fails):
 def coverage_extra(stats, tier):
     return {
         "fault_kinds_configured": ["input crash_prefix", "input storage faults (field_overwrite, bitflip, line_del, line_dup, lost_block, torn_tail)",
-                                   "output text_write_fail", "output raw_write_fail", "output close_fail", "output raw_short_write", "pre-existing target"],
+                                   "output text_write_fail", "output raw_write_fail", "output close_fail", "output raw_short_write", "output disk_full (persistent)", "pre-existing target"],
         "simulated_time": "not measured here (step clock not armed); one evaluation = one conversion",
     }
